@@ -550,6 +550,9 @@ func (u *Unit) builtin(fr *Frame, st *State, name string, c *ssa.CallCommon, arg
 		m := args[0].(*Term)
 		k := args[1].(*Term)
 		u.checkMapWrite(st, m, pos)
+		// `at map.delete label: e`: proved right before every delete() of the unit (arg0 is
+		// the map, arg1 the key) - under which condition an entry may be removed
+		u.atPseudo(fr, st, "map.delete", "at the delete from the map: ", pos, []envVar{{args[0], c.Args[0].Type()}, {args[1], c.Args[1].Type()}})
 		d := u.mapGet(st, dom, ArrSort(SRef, ArrSort(ks, SBool)))
 		l := u.mapGet(st, ln, ArrSort(SRef, SInt))
 		had := Select(Select(d, m), k)
